@@ -9,6 +9,8 @@ CONSTANTS
   WaitLeader = TRUE
   QueueSize = 10
   SpecialCids = {"m1", "m2"}
+  Journal = FALSE
+  DumpFile = FALSE
   Raisers = {}
   InitConnected = TRUE
   Membership = TRUE
